@@ -978,3 +978,407 @@ Qed.
 Lemma disjoint_neg_net l : has_atom (A_type T_document false) l = false ->
   disjoint (neg_of l) M_FROM_NETWORK_TYPES = negb (any_negated_type l).
 Proof. intros H. unfold disjoint. rewrite (neg_of_sub_net l H), neg_of_zero, any_negated_type_alt. reflexivity. Qed.
+
+(* --- the mask that finish_rule returns --- *)
+From Coq Require Import Btauto.
+
+Definition final_mask (sh : shape) (m P Ng : N) : N :=
+  N.ldiff (implicit_all_types sh (apply_scheme (implicit_types m P Ng) (sh_scheme sh)) P Ng) Ng.
+
+Lemma finish_rule_mask sh st p : finish_rule sh st = POk p ->
+  p_mask p = final_mask sh (st_mask st) (st_pos st) (st_neg st).
+Proof.
+  unfold finish_rule. cbv zeta.
+  destruct (negb (sh_complete_regex sh) && _); [discriminate|].
+  destruct (has_flag _ M_GENERIC_HIDE && _); [discriminate|].
+  destruct (has_flag _ M_IS_REMOVEPARAM && _); [discriminate|].
+  intros H. inversion H; subst. reflexivity.
+Qed.
+
+Definition sset (s : scheme_pat) : N :=
+  match s with
+  | SP_none => 0 | SP_ws => M_FROM_WEBSOCKET | SP_http => M_FROM_HTTP | SP_https => M_FROM_HTTPS
+  | SP_httpstar => N.lor M_FROM_HTTPS M_FROM_HTTP
+  end.
+Definition sclr (s : scheme_pat) : N :=
+  match s with
+  | SP_none | SP_httpstar => 0 | SP_ws => N.lor M_FROM_HTTP M_FROM_HTTPS
+  | SP_http => M_FROM_HTTPS | SP_https => M_FROM_HTTP
+  end.
+
+Lemma apply_scheme_bits m s k :
+  N.testbit (apply_scheme m s) k = (N.testbit m k || N.testbit (sset s) k) && negb (N.testbit (sclr s) k).
+Proof.
+  destruct s; unfold apply_scheme, set_flag, sset, sclr;
+    rewrite ?N.ldiff_spec, ?N.lor_spec, ?N.bits_0; btauto.
+Qed.
+
+Lemma tb_if (c : bool) a b k :
+  N.testbit (if c then a else b) k = if c then N.testbit a k else N.testbit b k.
+Proof. destruct c; reflexivity. Qed.
+
+Lemma final_bit sh m P Ng k :
+  N.testbit P 15 = false ->
+  N.testbit (final_mask sh m P Ng) k =
+  (let rp := N.testbit m 15 in
+   let c1 := negb rp && negb (disjoint Ng M_FROM_NETWORK_TYPES) in
+   let c2 := disjoint P M_FROM_ALL_TYPES in
+   let c3 := c2 && disjoint Ng M_FROM_ALL_TYPES && sh_hostname_anchor sh && sh_right_anchor sh
+             && negb (sh_end_url_anchor sh) && negb rp in
+   ((((N.testbit m k || N.testbit P k || (c1 && N.testbit M_FROM_NETWORK_TYPES k)
+       || (c2 && (if rp then N.testbit removeparam_default_types k
+                  else N.testbit M_FROM_NETWORK_TYPES k)))
+      || N.testbit (sset (sh_scheme sh)) k) && negb (N.testbit (sclr (sh_scheme sh)) k))
+    || (c3 && N.testbit M_FROM_ALL_TYPES k)) && negb (N.testbit Ng k)).
+Proof.
+  intros HP. cbv zeta.
+  unfold final_mask, implicit_all_types, implicit_types. cbv zeta.
+  change M_IS_REMOVEPARAM with (2 ^ 15). rewrite !has_flag_bit.
+  rewrite ?N.ldiff_spec, ?tb_if, ?N.lor_spec, ?apply_scheme_bits.
+  rewrite ?N.ldiff_spec, ?tb_if, ?N.lor_spec, ?apply_scheme_bits.
+  rewrite ?N.ldiff_spec, ?tb_if, ?N.lor_spec, ?apply_scheme_bits.
+  rewrite ?N.ldiff_spec, ?tb_if, ?N.lor_spec, ?apply_scheme_bits.
+  rewrite HP.
+  destruct (sh_scheme sh); unfold sset, sclr; tb_const;
+  destruct (N.testbit m 15), (disjoint Ng M_FROM_NETWORK_TYPES), (disjoint P M_FROM_ALL_TYPES),
+    (disjoint Ng M_FROM_ALL_TYPES), (sh_hostname_anchor sh), (sh_right_anchor sh), (sh_end_url_anchor sh);
+  cbn [negb andb orb]; rewrite ?N.lor_spec, ?N.bits_0; btauto.
+Qed.
+
+Definition MM (exc : bool) (l : list l0_atom) : N :=
+  mm (fold_left apply_atom l (mkMpn (initial_mask exc) 0 0)).
+
+Lemma build_rule_mask h sh opts p :
+  forallb wf_optb opts = true -> build_rule h sh opts = POk p ->
+  p_mask p = final_mask sh (MM (sh_exception sh) (map atom_of_nfopt opts))
+                        (pos_of (map atom_of_nfopt opts)) (neg_of (map atom_of_nfopt opts)).
+Proof.
+  intros W H. unfold build_rule in H. apply finish_rule_mask in H. rewrite H.
+  pose proof (fold_option_atom h opts (initial_state sh) W) as E.
+  set (st' := fold_left (apply_option h) opts (initial_state sh)) in *.
+  change (st_mask st') with (mm (proj st')). change (st_pos st') with (mp (proj st')).
+  change (st_neg st') with (mn (proj st')). rewrite E.
+  rewrite fold_atoms_pos, fold_atoms_neg. cbn [proj initial_state st_mask st_pos st_neg mp mn].
+  rewrite !N.lor_0_l. reflexivity.
+Qed.
+
+Lemma MM_set exc l k : (forall a, N.testbit (atom_clears a) k = false) ->
+  N.testbit (MM exc l) k = N.testbit (initial_mask exc) k || existsb (fun a => N.testbit (atom_sets a) k) l.
+Proof. intros H. unfold MM. rewrite (fold_atoms_mask_set l k H). reflexivity. Qed.
+Lemma MM_clear exc l k : (forall a, N.testbit (atom_sets a) k = false) ->
+  N.testbit (MM exc l) k = N.testbit (initial_mask exc) k && negb (existsb (fun a => N.testbit (atom_clears a) k) l).
+Proof. intros H. unfold MM. rewrite (fold_atoms_mask_clear l k H). reflexivity. Qed.
+
+Ltac atom_cases := let a := fresh "a" in intro a; destruct a as [[] []|[]| | | | | | | | | | | ]; reflexivity.
+
+Lemma existsb_has_atom (f : l0_atom -> bool) a0 l :
+  (forall a, f a = l0_atom_beq a0 a) -> existsb f l = has_atom a0 l.
+Proof. intros H. unfold has_atom. apply existsb_ext_in. exact H. Qed.
+Lemma existsb_none {A} (f : A -> bool) l : (forall a, f a = false) -> existsb f l = false.
+Proof. intros H. induction l as [|x l IH]; cbn; [reflexivity|]. rewrite H, IH. reflexivity. Qed.
+
+Lemma MM_15 exc l : N.testbit (MM exc l) 15 = has_atom A_removeparam l.
+Proof.
+  rewrite MM_set by atom_cases. rewrite (existsb_has_atom _ A_removeparam) by atom_cases.
+  destruct exc; reflexivity.
+Qed.
+Lemma MM_27 exc l : N.testbit (MM exc l) 27 = has_atom A_badfilter l.
+Proof.
+  rewrite MM_set by atom_cases. rewrite (existsb_has_atom _ A_badfilter) by atom_cases.
+  destruct exc; reflexivity.
+Qed.
+Lemma MM_14 exc l : N.testbit (MM exc l) 14 = has_atom A_matchcase l.
+Proof.
+  rewrite MM_set by atom_cases. rewrite (existsb_has_atom _ A_matchcase) by atom_cases.
+  destruct exc; reflexivity.
+Qed.
+Lemma MM_22 exc l : N.testbit (MM exc l) 22 = exc.
+Proof. rewrite MM_set by atom_cases. rewrite existsb_none by atom_cases. destruct exc; reflexivity. Qed.
+Lemma MM_25 exc l : N.testbit (MM exc l) 25 = false.
+Proof. rewrite MM_set by atom_cases. rewrite existsb_none by atom_cases. destruct exc; reflexivity. Qed.
+Lemma MM_11 exc l : N.testbit (MM exc l) 11 = true.
+Proof. rewrite MM_set by atom_cases. destruct exc; reflexivity. Qed.
+Lemma MM_12 exc l : N.testbit (MM exc l) 12 = true.
+Proof. rewrite MM_set by atom_cases. destruct exc; reflexivity. Qed.
+Lemma MM_16 exc l : N.testbit (MM exc l) 16 = sem_third_ok l.
+Proof.
+  rewrite MM_clear by atom_cases. rewrite (existsb_has_atom _ (A_party false)) by atom_cases.
+  destruct exc; reflexivity.
+Qed.
+Lemma MM_17 exc l : N.testbit (MM exc l) 17 = sem_first_ok l.
+Proof.
+  rewrite MM_clear by atom_cases. rewrite (existsb_has_atom _ (A_party true)) by atom_cases.
+  destruct exc; reflexivity.
+Qed.
+Lemma MM_type exc l c :
+  N.testbit (MM exc l) (cpos c) = tclass_beq c T_document && has_atom A_csp l.
+Proof.
+  destruct c; cbn [cpos tclass_beq andb]; rewrite MM_set by atom_cases;
+    try (rewrite existsb_none by atom_cases; destruct exc; reflexivity).
+  rewrite (existsb_has_atom _ A_csp) by atom_cases. destruct exc; reflexivity.
+Qed.
+
+Lemma l0_atom_beq_neq a b : a <> b -> l0_atom_beq a b = false.
+Proof. intros H. destruct (l0_atom_beq a b) eqn:E; [|reflexivity]. apply l0_atom_beq_eq in E. contradiction. Qed.
+
+Lemma wf_no_neg_doc opts : forallb wf_optb opts = true ->
+  has_atom (A_type T_document false) (map atom_of_nfopt opts) = false.
+Proof.
+  induction opts as [|o opts IH]; cbn [forallb map]; [reflexivity|]. intros H.
+  apply andb_true_iff in H as [H1 H2]. rewrite has_atom_cons, (IH H2), orb_false_r.
+  apply l0_atom_beq_neq. intros E. exact (wf_no_negated_document o H1 (eq_sym E)).
+Qed.
+
+Lemma pos_of_15 l : N.testbit (pos_of l) 15 = false.
+Proof. rewrite <- pos_of_sub, N.land_spec. apply andb_false_r. Qed.
+
+Definition rpdef (c : tclass) : bool :=
+  tclass_beq c T_document || tclass_beq c T_subdocument || tclass_beq c T_xhr.
+
+(* every type bit of a parsed rule says what the L0 semantics of its options says *)
+Theorem parsed_type_bits h sh opts p :
+  forallb wf_optb opts = true -> build_rule h sh opts = POk p ->
+  forall c, has_flag (p_mask p) (class_mask c) = sem_allowed sh (map atom_of_nfopt opts) c.
+Proof.
+  intros W H c. rewrite (build_rule_mask h sh opts p W H).
+  set (l := map atom_of_nfopt opts).
+  rewrite class_mask_pow, has_flag_bit, (final_bit _ _ _ _ _ (pos_of_15 l)). cbv zeta.
+  rewrite MM_15, MM_type, pos_of_bit, neg_of_bit, disjoint_pos_all, disjoint_neg_all,
+    (disjoint_neg_net l (wf_no_neg_doc opts W)).
+  unfold sem_allowed. cbv zeta.
+  generalize (has_atom (A_type c true) l) (has_atom (A_type c false) l) (has_atom A_csp l)
+    (has_atom A_removeparam l) (any_positive_type l) (any_negated_type l)
+    (sh_hostname_anchor sh) (sh_right_anchor sh) (sh_end_url_anchor sh).
+  intros b1 b2 b3 b4 b5 b6 b7 b8 b9.
+  destruct c, (sh_scheme sh); unfold sset, sclr, is_network; cbn [cpos tclass_beq andb orb negb];
+    tb_const; destruct b4; btauto.
+Qed.
+
+Lemma pos_of_nontype l k : N.testbit M_FROM_ALL_TYPES k = false -> N.testbit (pos_of l) k = false.
+Proof. intros H. rewrite <- pos_of_sub, N.land_spec, H. apply andb_false_r. Qed.
+Lemma neg_of_nontype l k : N.testbit M_FROM_ALL_TYPES k = false -> N.testbit (neg_of l) k = false.
+Proof. intros H. rewrite <- neg_of_sub, N.land_spec, H. apply andb_false_r. Qed.
+
+Ltac flag_bit W H l :=
+  rewrite (build_rule_mask _ _ _ _ W H);
+  rewrite has_flag_bit, (final_bit _ _ _ _ _ (pos_of_15 l)); cbv zeta;
+  rewrite ?(pos_of_nontype l _ eq_refl), ?(neg_of_nontype l _ eq_refl).
+
+Section ParsedFlags.
+  Variables (h : str -> N) (sh : shape) (opts : list nfopt) (p : parsed).
+  Hypothesis W : forallb wf_optb opts = true.
+  Hypothesis H : build_rule h sh opts = POk p.
+  Let l := map atom_of_nfopt opts.
+
+  Lemma parsed_third_party : third_party (p_mask p) = sem_third_ok l.
+  Proof.
+    unfold third_party. change M_THIRD_PARTY with (2 ^ 16). flag_bit W H l.
+    fold l. rewrite MM_16. destruct (sh_scheme sh); unfold sset, sclr; tb_const; btauto.
+  Qed.
+  Lemma parsed_first_party : first_party (p_mask p) = sem_first_ok l.
+  Proof.
+    unfold first_party. change M_FIRST_PARTY with (2 ^ 17). flag_bit W H l.
+    fold l. rewrite MM_17. destruct (sh_scheme sh); unfold sset, sclr; tb_const; btauto.
+  Qed.
+  Lemma parsed_for_http : for_http (p_mask p) = sem_http_ok (sh_scheme sh).
+  Proof.
+    unfold for_http. change M_FROM_HTTP with (2 ^ 11). flag_bit W H l.
+    fold l. rewrite MM_11. destruct (sh_scheme sh); unfold sset, sclr; tb_const; cbn [sem_http_ok]; btauto.
+  Qed.
+  Lemma parsed_for_https : for_https (p_mask p) = sem_https_ok (sh_scheme sh).
+  Proof.
+    unfold for_https. change M_FROM_HTTPS with (2 ^ 12). flag_bit W H l.
+    fold l. rewrite MM_12. destruct (sh_scheme sh); unfold sset, sclr; tb_const; cbn [sem_https_ok]; btauto.
+  Qed.
+  Lemma parsed_badfilter : is_badfilter (p_mask p) = has_atom A_badfilter l.
+  Proof.
+    unfold is_badfilter. change M_BAD_FILTER with (2 ^ 27). flag_bit W H l.
+    fold l. rewrite MM_27. destruct (sh_scheme sh); unfold sset, sclr; tb_const; btauto.
+  Qed.
+  Lemma parsed_exception : is_exception (p_mask p) = sh_exception sh.
+  Proof.
+    unfold is_exception. change M_IS_EXCEPTION with (2 ^ 22). flag_bit W H l.
+    fold l. rewrite MM_22. destruct (sh_scheme sh); unfold sset, sclr; tb_const; btauto.
+  Qed.
+  Lemma parsed_unmatched : has_flag (p_mask p) M_UNMATCHED = false.
+  Proof.
+    change M_UNMATCHED with (2 ^ 25). flag_bit W H l.
+    fold l. rewrite MM_25. destruct (sh_scheme sh); unfold sset, sclr; tb_const; btauto.
+  Qed.
+  Lemma parsed_match_case : has_flag (p_mask p) M_MATCH_CASE = has_atom A_matchcase l.
+  Proof.
+    change M_MATCH_CASE with (2 ^ 14). flag_bit W H l.
+    fold l. rewrite MM_14. destruct (sh_scheme sh); unfold sset, sclr; tb_const; btauto.
+  Qed.
+
+  (* type options: mask test = class test *)
+  Lemma parsed_allowed_type r :
+    allowed_type (p_mask p) r = l0_type_ok (sem_allowed sh l) (sh_exception sh) (rq_type r).
+  Proof.
+    unfold allowed_type, l0_type_ok. rewrite request_class_agrees, parsed_exception.
+    destruct (l0_class_of_request (rq_type r)) as [c|] eqn:E.
+    - rewrite (parsed_type_bits h sh opts p W H c). fold l. f_equal. f_equal.
+      destruct (rq_type r); inversion E; subst; reflexivity.
+    - rewrite parsed_unmatched. destruct (rq_type r); try discriminate E. reflexivity.
+  Qed.
+
+  Lemma parsed_party_ok r :
+    party_ok (p_mask p) r = l0_party_ok (sem_third_ok l) (sem_first_ok l) (rq_third r).
+  Proof. unfold party_ok, l0_party_ok. rewrite parsed_third_party, parsed_first_party. reflexivity. Qed.
+
+  (* F3: the class on which the code's scheme test is weaker than the L0 sentence *)
+  Definition f3_class (r : request) : bool :=
+    match sh_scheme sh with SP_http | SP_https | SP_httpstar => negb (rq_http r) && negb (rq_https r) | _ => false end.
+
+  Lemma parsed_scheme_ok r :
+    rq_http r && rq_https r = false -> f3_class r = false ->
+    scheme_ok (p_mask p) r = l0_scheme_ok (sh_scheme sh) (scheme_of_request r).
+  Proof.
+    unfold scheme_ok, f3_class, scheme_of_request. rewrite parsed_for_http, parsed_for_https.
+    destruct (sh_scheme sh), (rq_http r), (rq_https r); cbn; intros; congruence.
+  Qed.
+
+  (* the L0 sentence for http and https requests *)
+  Lemma parsed_scheme_ok_http r :
+    xorb (rq_http r) (rq_https r) = true ->
+    scheme_ok (p_mask p) r = l0_scheme_ok (sh_scheme sh) (scheme_of_request r).
+  Proof.
+    intros X. apply parsed_scheme_ok; unfold f3_class;
+      destruct (sh_scheme sh), (rq_http r), (rq_https r); cbn in *; congruence.
+  Qed.
+
+  Theorem parsed_rule_l0 raw_type schema src third :
+    let r := from_detailed_parameters h raw_type schema src third in
+    inj_on h (names_of (sem_domains true opts None) ++ host_chain src) ->
+    inj_on h (names_of (sem_domains false opts None) ++ host_chain src) ->
+    f3_class r = false ->
+    rule_check_options p r =
+      negb (has_atom A_badfilter l)
+      && l0_type_ok (sem_allowed sh l) (sh_exception sh) (rq_type r)
+      && l0_scheme_ok (sh_scheme sh) (scheme_of_request r)
+      && l0_party_ok (sem_third_ok l) (sem_first_ok l) third
+      && l0_domains_ok (sem_domains true opts None) (sem_domains false opts None)
+                       (if is_nil src then None else Some src).
+  Proof.
+    intros r I1 I2 F.
+    rewrite (parsed_rule_check_spec h sh opts p r H).
+    rewrite parsed_badfilter, parsed_allowed_type, parsed_party_ok.
+    assert (Hx : rq_http r && rq_https r = false).
+    { unfold r, from_detailed_parameters. destruct (is_nil schema); cbn; [reflexivity|].
+      destruct (str_eqb schema (bs "http")); reflexivity. }
+    rewrite (parsed_scheme_ok r Hx F).
+    assert (Hs : rq_src r = source_hostname_hashes h src).
+    { unfold r, from_detailed_parameters. destruct (is_nil schema); reflexivity. }
+    assert (Ht : rq_third r = third).
+    { unfold r, from_detailed_parameters. destruct (is_nil schema); reflexivity. }
+    rewrite Hs, Ht, (parsed_rule_domains_l0 h sh opts p src H I1 I2). reflexivity.
+  Qed.
+End ParsedFlags.
+
+(* parse_rule_options = parse the text, validate, build *)
+Theorem parse_rule_options_inv h sh s p : parse_rule_options h sh (Some s) = POk p ->
+  exists opts, parse_filter_options s = POk opts /\ forallb wf_optb opts = true
+               /\ validate_options opts = POk tt /\ build_rule h sh opts = POk p.
+Proof.
+  unfold parse_rule_options. destruct (parse_filter_options s) as [opts|e] eqn:E; [|discriminate].
+  destruct (validate_options opts) as [[]|e] eqn:V; [|discriminate].
+  intros H. exists opts. repeat split; auto. apply (parse_filter_options_wf s). exact E.
+Qed.
+
+(* a line without `$` *)
+Lemma parse_rule_options_none h sh p : parse_rule_options h sh None = POk p -> build_rule h sh [] = POk p.
+Proof. intros H. exact H. Qed.
+
+(* ========================================================================================== *)
+(* 10. requests: supported schemes                                                            *)
+(* ========================================================================================== *)
+Definition supported_schemes : list str := [[]; bs "http"; bs "https"; bs "ws"; bs "wss"]%string.
+
+Theorem is_supported_iff h raw_type schema src third :
+  rq_supported (from_detailed_parameters h raw_type schema src third) = mem_str schema supported_schemes.
+Proof.
+  unfold from_detailed_parameters, supported_schemes. destruct schema as [|c s]; [reflexivity|].
+  cbn [is_nil mem_str rq_supported]. change (str_eqb (c :: s) []) with false. cbn [orb].
+  destruct (str_eqb (c :: s) (bs "http")), (str_eqb (c :: s) (bs "https")),
+    (str_eqb (c :: s) (bs "ws")), (str_eqb (c :: s) (bs "wss")); reflexivity.
+Qed.
+
+Theorem unsupported_never {R} (default : R) (rest : request -> R) r :
+  rq_supported r = false -> check_parameterised default rest r = default.
+Proof. intros H. unfold check_parameterised. rewrite H. reflexivity. Qed.
+
+(* websocket schemes force the request type *)
+Lemma ws_forces_type h raw_type schema src third :
+  mem_str schema [bs "ws"; bs "wss"]%string = true ->
+  rq_type (from_detailed_parameters h raw_type schema src third) = RT_Websocket.
+Proof.
+  unfold from_detailed_parameters. destruct schema as [|c s]; [discriminate|].
+  cbn [is_nil mem_str rq_type orb].
+  destruct (str_eqb (c :: s) (bs "http")) eqn:A, (str_eqb (c :: s) (bs "https")) eqn:B,
+    (str_eqb (c :: s) (bs "ws")) eqn:C, (str_eqb (c :: s) (bs "wss")) eqn:D; cbn; try reflexivity; try discriminate;
+    apply str_eqb_eq in A || apply str_eqb_eq in B; try (apply str_eqb_eq in C); try (apply str_eqb_eq in D);
+    congruence.
+Qed.
+
+(* ========================================================================================== *)
+(* 11. F3 witness and examples                                                                *)
+(* ========================================================================================== *)
+Definition H0 (s : str) : N := fold_left (fun a c => (a * 131 + c) mod 18446744073709551629) s 7.
+
+Definition f3_shape : shape := mkShape false false false false false SP_http.      (* |http:// *)
+Definition f3_request : request :=
+  from_detailed_parameters H0 (bs "websocket") (bs "ws") (bs "a.com") true.      (* ws://x.com/.. *)
+
+(* the faithful model lets the rule `|http://` apply to a websocket request although the L0
+   scheme sentence is false: finding F3 *)
+Theorem scheme_refuted :
+  exists sh r p, build_rule H0 sh [] = POk p /\ rq_supported r = true
+    /\ rule_check_options p r = true
+    /\ l0_scheme_ok (sh_scheme sh) (scheme_of_request r) = false.
+Proof. exists f3_shape, f3_request. eexists. repeat split; vm_compute; reflexivity. Qed.
+
+Lemma inj_on_check h l :
+  forallb (fun a => forallb (fun b => negb (N.eqb (h a) (h b)) || str_eqb a b) l) l = true -> inj_on h l.
+Proof.
+  intros C a b Ha Hb E.
+  pose proof (proj1 (forallb_forall _ _) (proj1 (forallb_forall _ _) C a Ha) b Hb) as X.
+  rewrite E, N.eqb_refl in X. cbn in X. apply str_eqb_eq. exact X.
+Qed.
+
+(* hypotheses of the conditional theorems are satisfiable on non-trivial inputs *)
+Example ex_check_options_spec :
+  let od := Some [3; 5; 12] in let odu := Some 15 in let ond := Some [6] in let ondu := Some 6 in
+  osorted od /\ osorted ond /\ union_consistent od odu /\ union_consistent ond ondu
+  /\ check_options M_DEFAULT_OPTIONS od odu ond ondu (mkReq RT_Script false true true true (Some [9; 5])) = true
+  /\ check_options M_DEFAULT_OPTIONS od odu ond ondu (mkReq RT_Script false true true true (Some [6; 5])) = false.
+Proof.
+  cbv zeta. repeat split; try reflexivity.
+  - apply (strongly_sorted_nth [3; 5; 12]). repeat constructor; lia.
+  - apply (strongly_sorted_nth [6]). repeat constructor.
+Qed.
+
+Definition ex_text : str := bs "script,~image,domain=a.com|~sub.a.com,3p".
+Definition ex_shape : shape := mkShape false false false false false SP_none.
+Example ex_parsed_rule :
+  exists opts p,
+    parse_filter_options ex_text = POk opts /\ build_rule H0 ex_shape opts = POk p
+    /\ parse_rule_options H0 ex_shape (Some ex_text) = POk p
+    /\ forallb wf_optb opts = true
+    /\ sem_domains true opts None = Some [bs "a.com"] /\ sem_domains false opts None = Some [bs "sub.a.com"]
+    /\ inj_on H0 ([bs "a.com"] ++ host_chain (bs "x.sub.a.com"))
+    /\ inj_on H0 ([bs "sub.a.com"] ++ host_chain (bs "x.sub.a.com"))
+    /\ rule_check_options p (from_detailed_parameters H0 (bs "script") (bs "https") (bs "www.a.com") true) = true
+    /\ rule_check_options p (from_detailed_parameters H0 (bs "script") (bs "https") (bs "x.sub.a.com") true) = false
+    /\ rule_check_options p (from_detailed_parameters H0 (bs "image") (bs "https") (bs "www.a.com") true) = false.
+Proof.
+  eexists. eexists. split; [vm_compute; reflexivity|]. split; [vm_compute; reflexivity|].
+  split; [vm_compute; reflexivity|]. split; [reflexivity|]. split; [reflexivity|]. split; [reflexivity|].
+  split; [apply inj_on_check; vm_compute; reflexivity|].
+  split; [apply inj_on_check; vm_compute; reflexivity|].
+  repeat split; vm_compute; reflexivity.
+Qed.
+
+Example ex_unsupported :
+  rq_supported (from_detailed_parameters H0 (bs "image") (bs "ftp") (bs "a.com") true) = false
+  /\ rq_supported (from_detailed_parameters H0 (bs "image") (bs "wss") (bs "a.com") true) = true.
+Proof. split; reflexivity. Qed.
